@@ -180,9 +180,47 @@ PROPS = {
         "trusted": ["translator: rule table validName2FnMap, rule-name constants, label/separator constants, regexes", "correspondence: Go drivers (walkcommon.go value printer and error-text projection, wgen.go generator with by-construction expectations), Run/Run_Walk.v, bin/check", ORACLES + "strconv.FormatFloat renderings; fmt %v echoes of composite values are not compared"],
         "assumptions": ['known findings: C18-iface-map-values (interface{} entry values), C18-url-reserved (reserved characters in URL values)'],
     },
+    "C08": {
+        "run": "Run.Run_Walk",
+        "rule": 'one worker process per cache configuration (default LRU, LRU of capacity 0, 1, 2, 3, 8, sync.Map, a cache that forgets everything — SetStructTypeCache is once-only): histories of validation calls over 40 distinct struct types (more than every small capacity) that carry rule sets for two tag names, with tag name valid / alt / other / default chosen per call, 25% of the calls with a per-call rule override, 30% returning to four hot types so that hits, evictions and re-analysis alternate; every result is compared in Coq with the cache-free model and with the by-construction expectation for the tag requested in that call. distinct cell = (cache configuration, tag name, override?).',
+        "trusted": ["translator: rule table, constants", "correspondence: Go drivers c08.go/c12.go (worker processes per cache configuration), walkcommon.go, Run/Run_Walk.v, bin/check"],
+        "assumptions": ['the cache is only reachable through validation calls (public API)'],
+    },
+    "C12": {
+        "run": "Run.Run_Walk",
+        "rule": "per cache configuration (default, LRU 1, always-miss) a history of heterogeneous calls (Struct over 40 two-tag types with different tags, per-call overrides and per-call functions under a built-in name; Var; Map; Url; failing and succeeding) followed by the same calls in a random permutation: every result is compared with the model / expectation in Coq and with the same call's first result; inputs and rule maps are deep-copied before and compared after every call; up to 400 earlier error strings and the tokens of an earlier ValidNamesSplit are re-read at the end. distinct cell = (cache, round, call kind).",
+        "trusted": ["translator: rule table, constants", "correspondence: Go drivers c08.go/c12.go (worker processes per cache configuration), walkcommon.go, Run/Run_Walk.v, bin/check"],
+        "assumptions": ['PARTIAL: aliasing of builder buffers / scratch slices is outside the functional model; checked by re-reading strings in the harness'],
+    },
+    "C11": {
+        "run": "Run.Run_Walk",
+        "race": True,
+        "rule": 'per cache configuration (default, LRU 2, LRU 0) three rounds with 2, 8 and 32 goroutines released together, each issuing a random stream of Struct (shared and private types, different tags, overrides, per-call functions), Var, Map and Url calls, built with -race; every concurrent result is compared with the same call run alone afterwards; a sample of calls per goroutine is compared in Coq with the model and the expectation; race reports, panics and timeouts are violations. distinct cell = (cache, goroutines, call kind).',
+        "trusted": ["translator: rule table, constants", "correspondence: Go drivers c08.go/c12.go (worker processes per cache configuration), walkcommon.go, Run/Run_Walk.v, bin/check"],
+        "assumptions": ['PARTIAL: scheduler, Go memory model, sync.Pool internals are outside the model; global function registration happens before the goroutines start'],
+    },
 }
 
 LEVELS = {
+    "C08": {
+        "text": 'Theorems in Coq: for ANY cache whose loads return nothing or a value stored under that key, every history of lookups over any (type, tag name) keys returns the fresh analysis, and the field loop run on the cached analysis equals the cache-free validation; an always-miss cache, an unbounded map and an LRU of any capacity (0 included) satisfy the hypothesis; the key carries the tag name. The LRU here is the abstract LRU that cache.go refines (C09). Tied by histories over more types than capacity under eight cache configurations.',
+        "design_ref": "DESIGN.md section 5, C08",
+        "note": 'The walker is shown to use a struct type only through its analysis (on_fields_analysis). Trusted: Coq kernel, correspondence harness.',
+        "technique": 'Coq proof (representation invariant over all lookup histories, generic in the cache) + multi-configuration history correspondence evaluated in Coq',
+    },
+    "C11": {
+        "text": "Theorems in Coq: every interleaving of any number of goroutines' atomic shared actions (pool get/put, cache load/store, cache forgetting entries) preserves 'pooled objects are clean and cache entries are correct', so every call reads from the shared state exactly what it reads alone; with C08 the result is the solo result. Tied by 2/8/32-goroutine runs under the race detector compared with solo results.",
+        "design_ref": "DESIGN.md section 5, C11",
+        "note": "PARTIAL: atomicity of the shared actions is C10 (cache) and sync.Pool's contract; scheduler and memory model are outside; races are searched with -race.",
+        "technique": 'Coq proof (invariant over all interleavings of atomic shared actions) + race-detector runs and solo-vs-concurrent comparison',
+    },
+    "C12": {
+        "text": "Theorems in Coq: an object taken from the pool never carries an earlier call's rule map (free() clears before Put, early returns never Put), for every history; the cached analysis is never altered by a per-call override; hence the model's purely functional validators are a faithful description of the pooled, cached implementation. Tied by histories and their permutations compared call by call, deep copies of inputs, and re-reading earlier error strings and tokens.",
+        "design_ref": "DESIGN.md section 5, C12",
+        "note": "PARTIAL: 'inputs unmodified' and 'strings handed out never change' concern Go memory aliasing and are carried by the harness, not by a theorem.",
+        "technique": 'Coq proof (pool / cache invariants over all histories) + history-and-permutation correspondence evaluated in Coq',
+    },
+
     "C02": {
         "text": 'Theorems in Coq about the executable model of the four validators: the error buffer is append-only and every object graph is walked to the end (no early exit, declaration then rule order), one rule instance writes at most one clause naming its field (contract proved for all 30 rule functions of the table), groups yield at most one clause each and come last, the result is nil exactly when nothing was written. Tied to the code by synthesised struct programs whose expected clause lists are known by construction.',
         "design_ref": "DESIGN.md section 5, C02",
